@@ -351,7 +351,7 @@ def st_case(draw):
             if (f.get("body") or {}).get("raise") == "StopIteration":
                 f["body"]["raise"] = "KeyError"
             for d in f["decos"]:
-                if d["t"] in ("require", "ensure", "snapshot") and draw(st.integers(0, 2)) == 0:
+                if d["t"] in ("require", "ensure", "snapshot") and not d.get("made") and draw(st.integers(0, 2)) == 0:
                     d["flavor"] = "gated"
                     d["lam"] = False
                     if d["t"] != "snapshot" and d["err"]["form"] in ("default", "class"):
